@@ -384,7 +384,62 @@ def visitor_meaning(rep, ex: Explorer):
             rep.check(s == "(<C>|<A>)", "VISIT.meaning", site, "text representation", "the text is (consequent|antecedent), which re-parses to the same conditional", extracted=s, required="(<C>|<A>)", function=site)
     rep.floor("visitCondition paths", n, 1)
     # VISIT.order: the list rules put their own item in front of what the rest of the input yields
-    for m, rest, what in (("visitCondition", "condition", "conditional"), ("visitMyid", "myid", "declared atom")):
+    # the declared atoms, by evaluation on concrete parse trees of `myid` (num=ID ',' myid | num=ID NEWLINE) for one to four
+    # names and every spelling of the line end the lexer accepts: the visitor returns the names, in order, nothing else
+    from ..absvals import HOpaque
+
+    def tok(I, text):
+        return I.alloc(HOpaque("Token", {"text": Const(text)}))
+
+    def myid_tree(I, names, nl):
+        node = None
+        for i in range(len(names) - 1, -1, -1):
+            t = tok(I, names[i])
+            if node is None:
+                node = I.alloc(HOpaque("ParseNode", {"rule": "myid", "visit": "visitMyid", "text": Const(names[i] + nl), "labels": {"num": t},
+                                                     "kids": {"ID": [t], "NEWLINE": [tok(I, nl)]}, "absent": ("myid",), "nchildren": 2}))
+            else:
+                node = I.alloc(HOpaque("ParseNode", {"rule": "myid", "visit": "visitMyid", "text": Const(names[i] + "," + I.deref(node).attrs["text"].value), "labels": {"num": t},
+                                                     "kids": {"ID": [t], "myid": [node]}, "absent": ("NEWLINE",), "nchildren": 3}))
+        return node
+
+    qual_m = f"{VIS}.visitMyid"
+    site_m = fn_label(prog, qual_m)
+    n_sig = 0
+    for names in (["a"], ["b", "p"], ["b", "p", "f", "w"], ["x_1", "Y", "a-b"]):
+        for nl in ("\n", "\r\n", "\r"):
+            held = {}
+
+            def visit_tree(I, args, kwargs, node, held=held):
+                x = args[0] if args else None
+                o = I.deref(x) if isinstance(x, Ref) else None
+                if isinstance(o, HOpaque) and o.typ == "ParseNode":
+                    m_ = prog.lookup_method(VIS, o.attrs["visit"])
+                    if m_ is None:
+                        raise AnalysisError(f"{VIS}.{o.attrs['visit']} not found")
+                    return I.call_function(m_, [held["s"], x], {}, node)
+                raise AnalysisError(f"{site_m}: visit() of something that is not a node of the tree: {x!r}")
+
+            def setup_m(I, names=names, nl=nl, held=held):
+                s_ = I.alloc(HObj(VIS, {"sigcheck": I.alloc(HList()), "signature": Sym("sig"), "visit": ExtV("antlr4.ParseTreeVisitor.visit")}))
+                held["s"] = s_
+                return [s_, myid_tree(I, names, nl)], {}
+
+            I_ = Interp(prog, models={"antlr4.ParseTreeVisitor.visit": visit_tree}, summaries=summ)
+            I_.max_depth = 12
+            I_.unfold_recursion = True
+            mpaths = I_.explore(qual_m, setup_m)
+            if ex.report is not None:
+                ex.report.absorb_stats(I_)
+            slot = f"signature {','.join(names)} + {nl!r}"
+            if len(mpaths) != 1 or mpaths[0].outcome[0] != "return":
+                raise AnalysisError(f"{site_m}: evaluation on a concrete tree did not give one result ({slot}: {[p.outcome[0] for p in mpaths]})")
+            vw = view(mpaths[0].state, mpaths[0].outcome[1])
+            got = [sg[1].value if sg[0] == "one" and isinstance(sg[1], Const) else repr(sg) for sg in vw[1]] if isinstance(vw, tuple) and vw[0] == "list" else repr(vw)
+            n_sig += 1
+            rep.check(got == names, "VISIT.order", site_m, slot, "the declared atoms are the identifiers of the signature line, in order, nothing else (whatever the line end is)", extracted=repr(got)[:120], required=repr(names), function=site_m)
+    rep.floor("signature trees evaluated", n_sig, 12)
+    for m, rest, what in (("visitCondition", "condition", "conditional"),):
         qual, paths = run(m)
         site = fn_label(prog, qual)
         k = 0
@@ -501,6 +556,47 @@ def reject(rep, ex: Explorer, grammar):
     paths = ex.run(qual, setup_l, summaries={}, key="listener")
     ok = bool(paths) and all(p.outcome[0] == "raise" for p in paths)
     rep.check(ok, "REJECT.listeners", site, "listener raises", "a syntax error is turned into an exception on every path", extracted=str([p.outcome[0] for p in paths]), required="raise", function=site)
+
+    # what the listener raises must get out of the parser: the generated rule methods catch the runtime's
+    # RecognitionException (error recovery) - an exception of that family raised by the listener is swallowed there and
+    # parsing goes on
+    caught = set()
+    gen = prog.modules.get("parser.CKBParser")
+    for fi_ in prog.functions.values():
+        if fi_.module == "parser.CKBParser":
+            for n_ in ast.walk(fi_.node):
+                if isinstance(n_, ast.ExceptHandler) and n_.type is not None:
+                    for t_ in (n_.type.elts if isinstance(n_.type, ast.Tuple) else [n_.type]):
+                        caught.add(ast.unparse(t_).rsplit(".", 1)[-1])
+    if not caught:
+        raise AnalysisError("parser/CKBParser.py: no exception handler found in the generated rule methods (anchor vanished)")
+    for p in paths:
+        if p.outcome[0] == "raise":
+            cls_ = getattr(p.outcome[1], "cls", "")
+            mro_ = [c.rsplit(".", 1)[-1] for c in (prog.mro(cls_) if cls_ in prog.classes else [cls_])]
+            hit = sorted(set(mro_) & caught)
+            rep.check(not hit, "REJECT.listeners", site, "exception gets out", "the listener's exception is not one the generated parser catches itself (its rule methods recover from RecognitionException and carry on)",
+                      extracted=f"raises {cls_.rsplit('.', 1)[-1]} (bases {mro_[1:]})" + (f": caught by the rule methods as {hit}" if hit else ""), required=f"not a subclass of {sorted(caught)}", function=site)
+    # the text of a file is what the file holds: bytes that are not text are an error, not something to skip
+    for fn_ in ("parse_belief_base", "parse_queries"):
+        qual_ = f"{WR}.{fn_}"
+        if qual_ not in prog.functions:
+            continue
+        site_ = fn_label(prog, qual_)
+
+        def setup_f(I):
+            return [Sym("text", "str")], {}
+
+        I_ = Interp(prog, models=models, summaries={f"{WR}.parseCKB": lambda I, fi, a, k, n: Sym(("parsed", desc(a[0]) if a else None)), f"{WR}.parse_queries_from_str": lambda I, fi, a, k, n: Sym(("parsed", desc(a[0]) if a else None))})
+        for p in I_.explore(qual_, setup_f):
+            for ev, Q in iter_events(p.events):
+                if ev.kind == "file.open":
+                    er = ev.data.get("kwargs", {}).get("errors")
+                    lenient = isinstance(er, Const) and er.value not in (None, "strict")
+                    rep.check(not lenient, "REJECT.input", f"{site_}:{ev.node.lineno}", "file decoded strictly", "a file is parsed as what it holds: bytes that do not decode are an error (dropping or replacing them makes malformed input well formed)",
+                              extracted=f"open(..., errors={er!r})", required="errors='strict' (the default)", function=site_)
+        if ex.report is not None:
+            ex.report.absorb_stats(I_)
 
     entry_eof = {}
     for rule in ("ckbs", "formula"):
